@@ -61,7 +61,7 @@ SCHEDULES = [
     {"times": [1.0, 2.0, 4.0], "start": 0.5},
 ]
 BASE = {"photon": "f64", "charge": "array", "pixel": "f64", "signal": "f64", "image": "u16", "scene": "no",
-        "data": "none", "debug": "off", "alias": "no"}
+        "data": "none", "debug": "off", "alias": "no", "flags": "no"}
 AXES = {
     "photon": ["none", "f64", "f32", "f16", "wl2", "wl3", "wl2xy"],   # wl2xy: the cube carries its own y / x coordinates
     "charge": ["none", "array", "clusters"],
@@ -71,6 +71,7 @@ AXES = {
     "scene": ["no", "yes"],
     "data": ["none", "flat", "nested"],
     "debug": ["off", "on", "const"],
+    "flags": ["no", "ro_off"],    # ro_off: a model clears detector.read_out in odd steps (every step still is a readout)
     "alias": ["no", "yes"],       # yes: the pixel / signal / image writers re-use one buffer per bucket (see exp_util._assign)
 }
 FLOATS = {"f64": "float64", "f32": "float32", "f16": "float16"}
@@ -81,7 +82,7 @@ GROUP_OF = {**IDLE, "m_charge2": "charge_generation", "m_charge_scale": "charge_
             "m_scene": "scene_generation", "m_photon": "photon_collection", "noop": "phasing",
             "m_charge": "charge_generation", "m_pixel": "charge_collection", "m_pixel_x2": "charge_transfer",
             "m_signal": "charge_measurement", "m_signal_same": "signal_transfer", "m_image": "readout_electronics",
-            "m_signal_cast": "signal_transfer", "m_image_cast": "readout_electronics", "m_pixel_zero": "charge_transfer",
+            "m_flags": "phasing", "m_signal_cast": "signal_transfer", "m_image_cast": "readout_electronics", "m_pixel_zero": "charge_transfer",
             "m_data": "data_processing", "last": "data_processing"}
 
 
@@ -109,7 +110,7 @@ def enumerate_cases(tier, seed):
                 for nd in (False, True):
                     cases.append({"fam": "P", "cfg": cfg, "sched": si, "nd": nd})
     empty = {"photon": "none", "charge": "none", "pixel": "none", "signal": "none", "image": "none", "scene": "no",
-             "data": "none", "debug": "off", "alias": "no"}
+             "data": "none", "debug": "off", "alias": "no", "flags": "no"}
     for cfg in _single_bucket_cfgs(empty):
         for si in range(len(SCHEDULES)):
             for nd in (False, True):
@@ -228,6 +229,8 @@ def build_pipeline(cfg, salt, track=False):
         idle("readout_electronics", "m_image_idle")
         if debug and cfg["image"] in ("u8", "u16"):
             add("readout_electronics", "m_image_cast", {"image": {"recast": "uint32"}})
+    if cfg.get("flags", "no") == "ro_off":
+        g.setdefault("phasing", []).append(("vp.exp_util.flags", "m_flags", {"read_out_odd": False}))
     if cfg["data"] != "none":
         add("data_processing", "m_data", {"data": cfg["data"]})
     # without debug the observer does not read the charge bucket (a read refreshes Charge's cache); the expected
